@@ -16,7 +16,7 @@ BUDGET = {"quick": 80, "thorough": 840}
 RULE = (
     "Merge cases: one bin table, k in 1..5 input coolers with supports disjoint/identical/overlapping/empty x "
     "mergebuf 1.. x input order x value columns and aggregation (sum/min/max on ints, sum on dyadic floats) x a "
-    "generated binary merge tree over the same leaves (nested merges) x dtypes int32/int64 inputs. Incompatible "
+    "and non-idempotent aggregates: pandas 'count', a user callable max-min) x a generated binary merge tree over the same leaves (nested merges, associative aggregates only) x dtypes int32/int64 inputs. Incompatible "
     "cases: different width, lengths, names, order, variable vs fixed, two different variable tables with equal "
     "lengths, symmetric vs square. Limit cases: int32 counts whose aggregate exceeds 2^31-1, an aggregation whose "
     "result is fractional on an integer column. Oracle: per-pixel aggregate over the inputs containing it. "
@@ -49,7 +49,7 @@ def merge_cases(draw, max_chroms=3, max_bins=5):
         vals = draw(st.lists(st.tuples(cnt, gen.DYADIC), min_size=len(sel), max_size=len(sel)))
         inputs.append([[c[0], c[1], v[0], v[1]] for c, v in zip(sel, vals)])
     cols = draw(st.sampled_from([None, None, ["count"], ["count", "x"], ["x"]]))
-    agg_count = draw(st.sampled_from(["sum", "sum", "min", "max"]))
+    agg_count = draw(st.sampled_from(["sum", "sum", "min", "max", "count", "range"]))
     # a binary tree over the leaves, as a nested list of leaf indices
     leaves = list(range(k))
     perm = draw(st.permutations(leaves))
@@ -97,7 +97,8 @@ def check_merge(case, ctx: Ctx):
         if case["cols"] is not None:
             kw["columns"] = list(case["cols"])
         if "count" in cols and case["agg_count"] != "sum":
-            kw["agg"] = {"count": case["agg_count"]}
+            # 'count' = number of inputs holding the pixel; 'range' = a user callable (max - min): neither is idempotent
+            kw["agg"] = {"count": (lambda s_: s_.max() - s_.min()) if case["agg_count"] == "range" else case["agg_count"]}
         call("merge_coolers", cooler.merge_coolers, out, [uris[t] for t in case["order"]], case["mergebuf"],
              h5opts={"compression": None}, **kw)
         colidx = {"count": 0, "x": 1}
